@@ -89,8 +89,6 @@ Proof.
 Qed.
 
 (* ---- status of one object *)
-Definition tomb_locked (b : cstate) (e : N) (o : oid) : bool := tombstoned b o && live_lock b e o.
-
 Lemma rank_worse a c : rank (worse a c) = N.max (rank a) (rank c).
 Proof. destruct a, c; reflexivity. Qed.
 
@@ -112,18 +110,6 @@ Proof.
   unfold find_parent, parent_of, get_entry. destruct (sm_get o (objs b)) as [en|]; [|reflexivity].
   destruct (h_parent (e_hdr en)), (h_first (e_hdr en)), (h_split (e_hdr en)); reflexivity.
 Qed.
-
-(* the known class: the object or an ancestor it inherits from is both
-   tombstoned and protected by a live lock *)
-Fixpoint excluded_k (k : nat) (b : cstate) (e : N) (o : oid) : bool :=
-  tomb_locked b e o ||
-  match direct b e o with
-  | Removed | Expired => false
-  | _ => match parent_of b o, k with
-         | Some p, S k' => excluded_k k' b e p
-         | _, _ => false
-         end
-  end.
 
 Lemma status_n_spec n : forall b e o, wfc b -> excluded_k n b e o = false ->
   status_n n b o e = rank (status_k n b e o).
